@@ -30,7 +30,7 @@ CHECK = {
     "opts": {"unwind": 8, "substitute": SUB, "feasibility": False, "batch_fresh": True, "reach_fresh": True, "equalfold_ascii": True,
              "loop_bounds": {W + "dispatchPending": 4, W + "nextEligibleBinding": 3}},
     "stop": [k for k in SUB.keys() if k.startswith("(*" + P)],
-    "timeout_ms": {"quick": 600000, "thorough": 3000000},
+    "timeout_ms": {"quick": 1500000, "thorough": 3000000},
     "explanation": "One handler step of the real (*workPullingProducerController).Receive (volatile mode: queue == nil) from an arbitrary state satisfying Inv, one job per message kind (RegisterConsumer, Request plain / ViaTimeout, Ack, Produced, StoredAck, tick, Terminated): "
                    "handleRegisterConsumer, handleRequest, handleAck, handleProduced, startStore, completeStore, replyStored, handleStoredAck, startAccept, completeAccept, owns, handleTick, handleTerminated, bindingFrom, progress, dispatchPending, nextEligibleBinding, allowNextRequest, aggregateFreeDemand, sendRequestNext, emitSequenced, resendUnconfirmed, advanceConfirmed, sendConfirmation, endBinding, bindingWork.freeDemand, terminate. "
                    "Pre-state: workers w1, w2 each bound or not (either registration order, any confirmedSeq/demandUpTo below the stated bound, any nextWorker in range), a universe of 2 jobs (3 in the thorough tier for five of the seven kinds) each nowhere, in the pending pool or held unconfirmed by w1 or w2 (ghost payload and store sequence per job), handshake Idle / Credit / StoredAck (pending job new or already held), a completed token or none. "
